@@ -17,10 +17,21 @@ Crypto.Protocol.SecretSharing:
             computed with the reference (linear algebra) and the REAL split run on that tape must reproduce them.
 * field   : _Element laws on Phi (all pairs, all 14^3 triples), all 128 x 128 products of basis monomials and
             inverses of 435 elements against the reference GF(2^128) (reduction by x^128 + x^7 + x^2 + x + 1).
+
+The thorough tier adds (all complete enumerations, none of them in the quick tier):
+* split for all 28 (k, n), 2 <= k <= n <= 8;  share counts n = 7 and n = 8: every k-subset (k = 2..n) that contains the new
+  share n in every order, supersets and (k-1)-subsets containing it (subsets without it are the calls made for n - 1);
+* EVERY threshold k = 7..64 with n = k + 1 (every leave-one-out k-subset, reversed and rotated orders), k = 96, 127, 129;
+* wide indexes: k = 4, 5 for n = 300, n = 1025 (k = 2, 3, 4), n = 65537 with k = 3, 4;
+* repeated indexes: every list of length 2..7 over the indexes 1..7, lists of length 2..4 over the boundary indexes of n = 300;
+* secrecy witness for k = 2..7 over the (k-1)-subsets of 7 shares, 7 base cases, 41 candidate secrets;
+* field: all 40^3 triples of the alphabet Psi, every two-term element x^i + x^j times Phi (both orders) and squared,
+  inverses of every two-term element, every run of ones, every shifted odd byte and every integer below 4096.
 """
 import itertools
 import math
 import os
+import time
 
 from ..common import Acc, short, seeded, seeded_int
 from ..ref import gf128 as G
@@ -37,6 +48,8 @@ BUDGET = {"quick": 150, "thorough": 1500}
 MASK = (1 << 128) - 1
 NMAX = 6
 KN = [(k, n) for k in range(2, NMAX + 1) for n in range(k, NMAX + 1)]          # the 15 (k, n) pairs
+NMAX_T = 8         # thorough tier: split for every (k, n) up to here; share counts NMAX+1..NMAX_T are "layers" (see layer_case)
+KN_T = [(k, n) for k in range(2, NMAX_T + 1) for n in range(k, NMAX_T + 1)]    # the 28 (k, n) pairs of the thorough tier
 MAXV = 25          # per shard and key: stop enumerating a part after that many failing cases (verdict is decided)
 
 
@@ -57,6 +70,22 @@ def sub(names):
     return [p[PHI_NAMES.index(n)] for n in names]
 
 
+# thorough tier, field laws and candidate secrets: Phi plus 26 more boundary patterns
+PSI_EXTRA = [("x^2", 4), ("x^6", 0x40), ("x^8", 0x100), ("x^63", 1 << 63), ("x^65", 1 << 65), ("x^120", 1 << 120),
+             ("x^121", 1 << 121), ("x^126", 1 << 126), ("x^127+x^126", 3 << 126), ("2^64-1", (1 << 64) - 1),
+             ("2^64+1", (1 << 64) + 1), ("2^127-1", (1 << 127) - 1), ("2^128-2", MASK - 1), ("0x87<<1", 0x10E),
+             ("0x87>>1", 0x43), ("0x87<<120", 0x87 << 120), ("x^127+0x87", (1 << 127) | 0x87), ("0x55..55", int("55" * 16, 16)),
+             ("0x0F..0F", int("0F" * 16, 16)), ("x^64+x^63", 3 << 63), ("0xFF<<60", 0xFF << 60), ("1/x", None), ("1/(x+1)", None),
+             ("seeded4", None), ("seeded5", None), ("0xF0..F0", int("F0" * 16, 16))]
+PSI_NAMES = PHI_NAMES + [n for n, _ in PSI_EXTRA]
+
+
+def psi():
+    special = {"1/x": lambda: G.gf_inv(2), "1/(x+1)": lambda: G.gf_inv(3),
+               "seeded4": lambda: seeded_int("c20/phi/4", 128), "seeded5": lambda: seeded_int("c20/phi/5", 128)}
+    return phi() + [v if v is not None else special[n]() for n, v in PSI_EXTRA]
+
+
 T6N = ["0", "1", "0x87", "x^127+1", "2^128-1", "seeded1"]
 T4N = ["0", "1", "2^128-1", "seeded1"]
 T3N = ["0", "2^128-1", "seeded1"]
@@ -71,15 +100,16 @@ def fixed_tapes(k):
     """4 stated tapes (draw order) for the quick tier at k = 5, 6"""
     p = phi()
     s1, s2, s3 = p[11], p[12], p[13]
-    gen = [s1, s2, s3, s1 ^ MASK, s2 ^ MASK][:k - 1]
+    gen = [s1, s2, s3, s1 ^ MASK, s2 ^ MASK, s3 ^ MASK, s1 ^ s2][:k - 1]           # k <= 8
     return [tuple([0] * (k - 1)), tuple(gen), tuple([MASK] * (k - 1)), tuple([0] * (k - 2) + [s1])]
 
 
 # grids: tier -> k -> (secret alphabet names | None = Phi, tape spec)
-#   tape spec: ("prod", names | None) = every (k-1)-tuple over that alphabet;  ("fixed",) = fixed_tapes(k)
+#   tape spec: ("prod", names | None) = every (k-1)-tuple over that alphabet;  ("fixed",) = fixed_tapes(k);
+#              ("generic",) = the one tape of k-1 distinct seeded coefficients (fixed_tapes(k)[1])
 SPLIT_GRID = {
     "thorough": {2: (None, ("prod", None)), 3: (None, ("prod", None)), 4: (None, ("prod", T6N)),
-                 5: (None, ("prod", T6N)), 6: (None, ("prod", T4N))},
+                 5: (None, ("prod", T6N)), 6: (None, ("prod", T4N)), 7: (None, ("prod", T3N)), 8: (None, ("prod", T3N))},
     "quick": {2: (None, ("prod", None)), 3: (None, ("prod", None)), 4: (None, ("prod", T4N)),
               5: (None, ("prod", T3N)), 6: (None, ("prod", T3N))},
 }
@@ -91,6 +121,16 @@ COMBINE_GRID = {
 }
 
 
+# thorough tier only: share counts n = 7, 8 (layer_case): n -> k -> grid
+T2S = ["2^128-1", "seeded1"]
+LAYER_GRID = {
+    7: {2: (None, ("prod", None)), 3: (None, ("prod", T6N)), 4: (T6N, ("prod", T4N)), 5: (T4N, ("prod", T2N)),
+        6: (T4N, ("fixed",)), 7: (T4N, ("fixed",))},
+    8: {2: (T6N, ("prod", T6N)), 3: (T6N, ("prod", T4N)), 4: (T4N, ("prod", T2N)), 5: (T2S, ("fixed",)),
+        6: (T4N, ("generic",)), 7: (T2S, ("generic",)), 8: (T2S, ("generic",))},
+}
+
+
 def grid_cases(spec, k):
     """-> list of (secret int, tape tuple of ints in DRAW order), simplest first"""
     snames, tspec = spec
@@ -98,6 +138,8 @@ def grid_cases(spec, k):
     if tspec[0] == "prod":
         al = phi() if tspec[1] is None else sub(tspec[1])
         tapes = list(itertools.product(al, repeat=k - 1))
+    elif tspec[0] == "generic":
+        tapes = fixed_tapes(k)[1:2]
     else:
         tapes = fixed_tapes(k)
     return [(s, t) for s in secrets for t in tapes]
@@ -108,6 +150,8 @@ def grid_text(spec, k):
     s = "Phi(14)" if snames is None else "{%s}" % ",".join(snames)
     if tspec[0] == "prod":
         t = "%s^%d" % ("Phi(14)" if tspec[1] is None else "{%s}" % ",".join(tspec[1]), k - 1)
+    elif tspec[0] == "generic":
+        t = "{generic distinct}"
     else:
         t = "{0^(k-1), generic distinct, (2^128-1)^(k-1), leading coefficients 0 and a_1 = seeded1}"
     return "secrets %s x tapes %s" % (s, t)
@@ -410,11 +454,118 @@ def combine_worker(shard):
     return acc
 
 
+# ---- thorough tier: share counts n = NMAX+1 .. NMAX_T, one layer per n ------
+SSSS_SUPERSET_OBS = ("ssss mode: presenting more than k shares does not give the secret (combine removes X^m, "
+                     "m = number of shares presented; documented: pass exactly k shares)")
+
+
+def layer_case(k, n, ssss, secret, tape, acc, first=None, extras=True):
+    """Everything that is NEW when the share count goes from n-1 to n: the recombinations that contain the share with
+    index n (those without it are literally the calls made for n-1: combine() is a stateless static method and
+    split(k, n-1) is verified here to be a prefix of split(k, n)).  Every k-subset containing share n in every order
+    (`first`: only the orders that start with the first-th share, to cut one case into n shards), and with `extras`
+    every superset and every (k-1)-subset containing it."""
+    sb = b16(secret)
+    shares = check_split(k, n, ssss, secret, tape, acc, part="layer-split")
+    if shares is None or len(shares) != n:
+        return
+    if k <= n - 1 and first in (None, 1):
+        prev = check_split(k, n - 1, ssss, secret, tape, acc, part="layer-split")
+        if prev is None:
+            return
+        if prev != shares[:n - 1]:
+            acc.violation("C20/split/shares-depend-on-n",
+                          "split(%d, n, %s, ssss=%s) with tape %s: the first shares differ between n=%d and n=%d"
+                          % (k, sb.hex(), ssss, fmt_tape(tape), n - 1, n),
+                          {"part": "combine-all", "k": k, "ssss": ssss, "secret": sb, "tape": [b16(c) for c in tape], "n_max": n})
+            return
+    idx = [i for i, _ in shares]
+    by = dict(shares)
+    last = idx[-1]
+    bad = 0
+    for rest in itertools.combinations(idx[:-1], k - 1):
+        subset = rest + (last,)
+        good = tot = 0
+        for order in itertools.permutations(subset):
+            if first is not None and order[0] != idx[first - 1]:
+                continue
+            tot += 1
+            acc.count("evaluations")
+            acc.count("layer_k_calls")
+            res = real_combine([(i, by[i]) for i in order], ssss)
+            if res == ("ok", sb):
+                good += 1
+            else:
+                bad += 1
+                judge_rebuild("k-shares", k, n, ssss, secret, tape, shares, order, acc, res)
+        acc.count("layer_k_ok", good)
+        acc.seen("classes", ("layer", k, n, subset, ssss, "all-orders-ok" if good == tot else "fails"))
+        acc.seen("layer_subsets", (k, n, ssss, subset))
+        if bad >= MAXV:
+            return
+    if not extras:
+        return
+    for m in range(k + 1, n + 1):
+        for rest in itertools.combinations(idx[:-1], m - 1):
+            subset = rest + (last,)
+            for order in (subset, subset[::-1]):
+                acc.count("evaluations")
+                acc.count("layer_superset_calls")
+                res = real_combine([(i, by[i]) for i in order], ssss)
+                if not ssss:
+                    judge_rebuild("superset-of-shares", k, n, ssss, secret, tape, shares, order, acc, res)
+                    acc.seen("classes", ("layer-superset", k, m, n, ssss, res[0], res[0] == "ok" and res[1] == sb))
+                else:
+                    ref = ref_combine([(i, by[i]) for i in order], True, acc)
+                    if ref is None:
+                        continue
+                    acc.seen("classes", ("layer-superset", k, m, n, ssss, res[0], res[0] == "ok" and res[1] == sb))
+                    if res == ("ok", ref) and ref != sb:
+                        acc.observe(SSSS_SUPERSET_OBS)
+                    elif res != ("ok", ref):
+                        acc.observe("ssss mode: combine of a superset differs from the reference interpolation")
+    for rest in itertools.combinations(idx[:-1], k - 2):
+        subset = rest + (last,)
+        for order in (subset, subset[::-1]) if k > 2 else (subset,):
+            acc.count("evaluations")
+            acc.count("layer_kminus1_calls")
+            judge_kminus1(k, n, ssss, secret, tape, shares, order, acc)
+
+
+def layer_worker(shard):
+    """shard: (k, n, ssss, [(secret, tape, extras)...], first or None)"""
+    k, n, ssss, cases, first = shard
+    acc = Acc()
+    for secret, tape, extras in cases:
+        layer_case(k, n, ssss, secret, tape, acc, first, extras)
+        if first in (None, 1):
+            acc.count("layer_cases")
+    acc.sample({"part": "layer (recombinations containing share n)", "k": k, "n": n, "ssss": ssss, "secret": b16(secret),
+                "tape_draws": [b16(c) for c in tape], "orders_starting_with_share": first or "any",
+                "ordered_k_subsets_containing_share_n_per_case": math.comb(n - 1, k - 1) * math.factorial(k)})
+    return acc
+
+
+def _ccall(m):
+    """rough seconds per combine() of m shares, bookkeeping included"""
+    return 0.0005 * m + 0.0004
+
+
+def layer_cost(k, n, extras=True):
+    c = math.comb(n - 1, k - 1) * math.factorial(k) * _ccall(k)
+    if extras:
+        c += sum(math.comb(n - 1, m - 1) * 2 * 2 * _ccall(m) for m in range(k + 1, n + 1))
+        c += math.comb(n - 1, k - 2) * 2 * 2 * _ccall(k - 1)
+    return c
+
+
 # ---- wide indexes: n = 300 (and 65537), subsets over boundary indexes ------
-WIDE = {300: [1, 2, 3, 127, 128, 255, 256, 257, 299, 300], 65537: [1, 255, 256, 65535, 65536, 65537]}
+WIDE = {300: [1, 2, 3, 127, 128, 255, 256, 257, 299, 300], 65537: [1, 255, 256, 65535, 65536, 65537],
+        1025: [1, 2, 511, 512, 513, 1023, 1024, 1025]}
 
 
-def wide_case(k, n, ssss, secret, tape, acc):
+def wide_case(k, n, ssss, secret, tape, acc, first=None):
+    """`first` (thorough tier, k = 5): only the orders that start with that index (one case is cut into shards)"""
     shares = check_split(k, n, ssss, secret, tape, acc, part="wide-split")
     if shares is None:
         return
@@ -424,6 +575,8 @@ def wide_case(k, n, ssss, secret, tape, acc):
     sb = b16(secret)
     bad = 0
     for order in itertools.permutations(WIDE[n], k):
+        if first is not None and order[0] != first:
+            continue
         acc.count("evaluations")
         acc.count("combine_wide_calls")
         res = real_combine([(i, by[i]) for i in order], ssss)
@@ -436,10 +589,11 @@ def wide_case(k, n, ssss, secret, tape, acc):
 
 
 def wide_worker(shard):
-    k, n, ssss, cases = shard
+    k, n, ssss, cases = shard[:4]
+    first = shard[4] if len(shard) > 4 else None
     acc = Acc()
     for secret, tape in cases:
-        wide_case(k, n, ssss, secret, tape, acc)
+        wide_case(k, n, ssss, secret, tape, acc, first)
     acc.sample({"part": "wide-indexes", "k": k, "n": n, "ssss": ssss, "indexes": WIDE[n], "cases": len(cases)})
     return acc
 
@@ -467,15 +621,61 @@ def large_worker(shard):
     return acc
 
 
+LARGE2_K = list(range(NMAX + 1, 65))       # thorough tier: EVERY threshold 7..64
+DUP_N_T = 7                                # thorough tier: repeated-index lists of length 2..7 over the indexes 1..7
+WIT_N_T = 7                                # thorough tier: secrecy witness over the (k-1)-subsets of 7 shares, k = 2..7
+SPARSE_SHARDS = 16
+INV2_SHARDS = 24
+
+
+def large2_values(k):
+    """two value classes: generic distinct coefficients; secret and all coefficients 2^128-1"""
+    P = phi()
+    return [(P[12], tuple(P[11 + (i % 3)] ^ (i * 0x0101010101010101) for i in range(k - 1))),
+            (MASK, tuple([MASK] * (k - 1)))]
+
+
+def large2_orders(k, idx, vi):
+    """generic values: every k-subset of the n = k+1 shares (leave one out) in index order, the first k shares reversed
+    and rotated by k//2; all-ones values: the first k shares and the last k shares reversed"""
+    first = tuple(idx[:k])
+    if vi == 0:
+        return [tuple(i for i in idx if i != out) for out in reversed(idx)] + [first[::-1], first[k // 2:] + first[:k // 2]]
+    return [first, tuple(reversed(idx))[:k]]
+
+
+def large2_worker(shard):
+    """shard: ([k...], ssss); n = k + 1"""
+    ks, ssss = shard
+    acc = Acc()
+    for k in ks:
+        n = k + 1
+        for vi, (secret, tape) in enumerate(large2_values(k)):
+            shares = check_split(k, n, ssss, secret, tape, acc, part="large-split")
+            if shares is None or len(shares) != n:
+                continue
+            idx = [i for i, _ in shares]
+            allok = True
+            for order in large2_orders(k, idx, vi):
+                acc.count("evaluations")
+                acc.count("combine_large_calls")
+                acc.count("combine_large2_calls")
+                allok = judge_rebuild("k-shares", k, n, ssss, secret, tape, shares, order, acc) and allok
+            acc.seen("classes", ("large2", k, n, ssss, vi, allok))
+    acc.sample({"part": "every-threshold", "k": list(ks), "n": "k+1", "ssss": ssss,
+                "orders": "every leave-one-out k-subset in index order, first k reversed, first k rotated by k//2"})
+    return acc
+
+
 # ---------------------------------------------------------------------------
 # part 3: repeated share indexes must be refused
 # ---------------------------------------------------------------------------
-def check_dup(ssss, idxs, variant, acc, shares=None):
+def check_dup(ssss, idxs, variant, acc, shares=None, n=NMAX):
     """idxs: index list with at least one repetition; variant 'same': the repeated share is the identical
     tuple; 'other': same index, different share value"""
     m = len(idxs)
     if shares is None:
-        shares = dup_shares(m, ssss)
+        shares = dup_shares(m, ssss, n)
     by = dict(shares)
     lst, seen = [], set()
     for i in idxs:
@@ -491,7 +691,7 @@ def check_dup(ssss, idxs, variant, acc, shares=None):
         acc.violation("C20/combine/duplicate-share-index-accepted",
                       "Shamir.combine(%s, ssss=%s): index list %r repeats an index (%s share value) but a result %s was returned"
                       % (short(lst), ssss, list(idxs), "same" if variant == "same" else "different", res[1].hex()),
-                      {"part": "dup", "ssss": ssss, "idxs": list(idxs), "variant": variant}, size=m)
+                      {"part": "dup", "ssss": ssss, "idxs": list(idxs), "variant": variant, "n": n}, size=m)
         return False
     acc.count("dup_refused")
     acc.seen("classes", ("dup", m, ssss, variant, res[1], "Duplicate" in res[2]))
@@ -505,12 +705,12 @@ def check_dup(ssss, idxs, variant, acc, shares=None):
 _DUP = {}
 
 
-def dup_shares(m, ssss):
-    key = (m, ssss)
+def dup_shares(m, ssss, n=NMAX):
+    key = (m, ssss, n)
     if key not in _DUP:
         p = phi()
-        tape = [p[11], p[12], p[13], p[11] ^ MASK, p[12] ^ MASK][:m - 1]
-        res, _, _ = real_split(m, NMAX, b16(p[13] ^ MASK), tape, ssss)
+        tape = [p[11], p[12], p[13], p[11] ^ MASK, p[12] ^ MASK, p[13] ^ 1][:m - 1]
+        res, _, _ = real_split(m, n, b16(p[13] ^ MASK), tape, ssss)
         if res[0] != "ok":
             raise RuntimeError("split failed while preparing the duplicate-index cases: %r" % (res,))
         _DUP[key] = [(int(i), bytes(v)) for i, v in res[1]]
@@ -540,6 +740,31 @@ def dup_worker(shard):
     return acc
 
 
+def dup2_worker(shard):
+    """thorough tier.  shard: (m, ssss, prefix, n, universe): every index list of length m that starts with `prefix`
+    (a tuple of indexes), continues over `universe` (None = all indexes 1..n) and repeats at least one index;
+    the shares are those of split(m, n)"""
+    m, ssss, prefix, n, universe = shard
+    acc = Acc()
+    shares = dup_shares(m, ssss, n)
+    ix = [i for i, _ in shares] if universe is None else list(universe)
+    bad = 0
+    last = None
+    for tail in itertools.product(ix, repeat=m - len(prefix)):
+        idxs = tuple(prefix) + tail
+        if len(set(idxs)) == m:
+            continue
+        for variant in ("same", "other"):
+            if not check_dup(ssss, idxs, variant, acc, shares, n):
+                bad += 1
+        last = idxs
+        if bad >= MAXV:
+            break
+    acc.sample({"part": "duplicate-indexes", "list_length": m, "n": n, "ssss": ssss, "prefix": list(prefix),
+                "universe": "1..%d" % n if universe is None else list(universe), "last_index_list": list(last or ())})
+    return acc
+
+
 # ---------------------------------------------------------------------------
 # part 4: secrecy witness - k-1 shares are consistent with every candidate secret
 # ---------------------------------------------------------------------------
@@ -562,18 +787,18 @@ def _mat_inv(M):
 _MINV = {}
 
 
-def witness_case(k, ssss, secret, tape, J, alt, acc, shares=None):
+def witness_case(k, ssss, secret, tape, J, alt, acc, shares=None, n_max=NMAX):
     """the k-1 shares with indexes J of split(secret, tape) must also come out of split(alt, tape') for the tape'
     the reference computes"""
     sb = b16(secret)
     if shares is None:
-        res, _, _ = real_split(k, NMAX, sb, tape, ssss)
+        res, _, _ = real_split(k, n_max, sb, tape, ssss)
         if res[0] != "ok":
             return                         # reported by the split part
         shares = [(int(i), bytes(v)) for i, v in res[1]]
     by = dict(shares)
     if any(x not in by for x in J):
-        return                             # split did not return indexes 1..6: reported by the split part
+        return                             # split did not return indexes 1..n_max: reported by the split part
     if (J, k) not in _MINV:
         _MINV[(J, k)] = _mat_inv([[G.gf_pow(x, i) for i in range(1, k)] for x in J])
     Minv = _MINV[(J, k)]
@@ -585,15 +810,16 @@ def witness_case(k, ssss, secret, tape, J, alt, acc, shares=None):
             v ^= G.gf_mul(Minv[r][c], rhs[c])
         coeffs[r] = v
     tape2 = tuple(reversed(coeffs))        # draw order: a_{k-1} first
-    refsh = dict(G.shamir_split(k, NMAX, b16(alt), coeffs, ssss))
+    refsh = dict(G.shamir_split(k, n_max, b16(alt), coeffs, ssss))
     if any(refsh[x] != by[x] for x in J):
         # the original shares are not on any reference polynomial for `alt`: only possible if split itself is off
         acc.count("witness_reference_mismatch")
         return
     acc.count("evaluations")
     acc.count("witness_calls")
-    res, calls, tripped = real_split(k, NMAX, b16(alt), tape2, ssss)
-    case = {"part": "witness", "k": k, "ssss": ssss, "secret": sb, "tape": [b16(c) for c in tape], "J": list(J), "alt": b16(alt)}
+    res, calls, tripped = real_split(k, n_max, b16(alt), tape2, ssss)
+    case = {"part": "witness", "k": k, "ssss": ssss, "secret": sb, "tape": [b16(c) for c in tape], "J": list(J), "alt": b16(alt),
+            "n_max": n_max}
     ok = res[0] == "ok" and not tripped
     if ok:
         try:
@@ -615,21 +841,23 @@ def witness_case(k, ssss, secret, tape, J, alt, acc, shares=None):
 
 
 def witness_worker(shard):
-    k, ssss, bases = shard
+    """shard: (k, ssss, bases) [quick: 6 shares, candidate secrets Phi] or (k, ssss, bases, n_max, 'psi') [thorough]"""
+    k, ssss, bases = shard[:3]
+    n_max = shard[3] if len(shard) > 3 else NMAX
     acc = Acc()
-    alts = phi()
+    alts = psi() if len(shard) > 4 and shard[4] == "psi" else phi()
     for secret, tape in bases:
-        res, _, _ = real_split(k, NMAX, b16(secret), tape, ssss)
+        res, _, _ = real_split(k, n_max, b16(secret), tape, ssss)
         if res[0] != "ok":
             continue
         shares = [(int(i), bytes(v)) for i, v in res[1]]
-        for J in itertools.combinations(range(1, NMAX + 1), k - 1):
+        for J in itertools.combinations(range(1, n_max + 1), k - 1):
             for alt in alts + [secret ^ 1]:
-                witness_case(k, ssss, secret, tape, J, alt, acc, shares)
+                witness_case(k, ssss, secret, tape, J, alt, acc, shares, n_max)
             if sum(acc.viol_count.values()) >= MAXV:
                 break
     acc.sample({"part": "secrecy-witness", "k": k, "ssss": ssss, "base_cases": len(bases),
-                "k-1_subsets": sum(1 for _ in itertools.combinations(range(NMAX), k - 1)), "candidate_secrets": len(alts) + 1})
+                "k-1_subsets": sum(1 for _ in itertools.combinations(range(n_max), k - 1)), "candidate_secrets": len(alts) + 1})
     return acc
 
 
@@ -782,6 +1010,38 @@ def inverse_set():
     return out
 
 
+def inverse_set2():
+    """thorough tier: every two-term element x^i + x^j, every run of ones (2^len - 1) << shift, every odd byte shifted
+    to every bit position, every integer 1..4095 (duplicates removed)"""
+    s = [(1 << i) | (1 << j) for i in range(128) for j in range(i)]
+    s += [((1 << ln) - 1) << sh for ln in range(1, 129) for sh in range(0, 129 - ln)]
+    s += [b << sh for sh in range(0, 121) for b in range(1, 256, 2)]
+    s += list(range(1, 4096))
+    out, seen = [], set()
+    for v in s:
+        if v not in seen:
+            seen.add(v)
+            out.append(v)
+    return out
+
+
+def field_sparse(i, acc):
+    """every two-term element e = x^i + x^j (j < i): e * b and b * e for all b of Phi, and e * e"""
+    P = phi()
+    for j in range(i):
+        e = (1 << i) | (1 << j)
+        for b in P:
+            eb = field_mul(e, b, acc)
+            be = field_mul(b, e, acc)
+            if eb is not None and be is not None and eb != be:
+                acc.violation("C20/field/multiplication-not-commutative", "a=0x%x b=0x%x: a*b=0x%x, b*a=0x%x" % (e, b, eb, be),
+                              {"part": "field", "law": "pair", "a": e, "b": b})
+        sq = field_mul(e, e, acc)
+        acc.seen("sparse_squares", sq)
+        acc.count("field_sparse_elements")
+    acc.seen("classes", ("field", "sparse-row", i))
+
+
 def field_misc(acc):
     """pairs, inverses, codec, pow, helper functions, and the out-of-domain behaviours (observations)"""
     from Crypto.Protocol import SecretSharing as SS
@@ -879,6 +1139,25 @@ def field_worker(shard):
         acc.sample({"part": "field-triples", "a": PHI_NAMES[shard[1]], "b,c": "all of Phi x Phi"})
     elif kind == "misc":
         field_misc(acc)
+    elif kind == "triples2":               # thorough tier: alphabet Psi (40 elements)
+        Q = psi()
+        a = Q[shard[1]]
+        for b in Q:
+            for c in Q:
+                field_triple(a, b, c, acc)
+        acc.count("field_triples2", len(Q) ** 2)
+        acc.sample({"part": "field-triples", "a": PSI_NAMES[shard[1]], "b,c": "all of Psi x Psi"})
+    elif kind == "sparse":
+        for i in shard[1]:
+            field_sparse(i, acc)
+        acc.sample({"part": "field-two-term-elements", "rows_x^i+x^j_for_all_j<i": list(shard[1]), "times": "all of Phi, itself"})
+    elif kind == "inverses2":
+        els = inverse_set2()[shard[1]::shard[2]]
+        for a in els:
+            field_inverse(a, acc)
+            field_codec(a, acc)
+        acc.count("field_inverse2", len(els))
+        acc.sample({"part": "field-inverses", "elements_in_shard": len(els), "last": "0x%x" % els[-1]})
     return acc
 
 
@@ -911,6 +1190,26 @@ def run(ctx):
         for ssss in (False, True):
             for i in range(0, len(cs), per):
                 shards.append((_cost(k) * len(cs[i:i + per]), combine_worker, (k, ssss, cs[i:i + per])))
+    # thorough tier: share counts n = 7, 8 (everything that contains the new share)
+    nlayer = {}
+    if not q:
+        for n in sorted(LAYER_GRID):
+            for k in range(2, n + 1):
+                cases = grid_cases(LAYER_GRID[n][k], k)
+                nlayer[(k, n)] = len(cases)
+                cs = [(s, t, k >= 4 or (s in T4 and all(c in T4 for c in t))) for s, t in cases]
+                c1 = layer_cost(k, n)
+                for ssss in (False, True):
+                    if c1 > 10.0:
+                        # one case is cut into n shards by the share the order starts with
+                        for cse in cs:
+                            for first in range(1, n + 1):
+                                shards.append((c1 / n, layer_worker, (k, n, ssss, [cse], first)))
+                    else:
+                        per = max(1, int(6.0 / c1))
+                        for i in range(0, len(cs), per):
+                            grp = cs[i:i + per]
+                            shards.append((sum(layer_cost(k, n, e) for _, _, e in grp), layer_worker, (k, n, ssss, grp, None)))
     # wide indexes
     s1, allones = P[11], MASK
     for ssss in (False, True):
@@ -921,14 +1220,40 @@ def run(ctx):
                 shards.append((1.5 * len(tapes), wide_worker, (k, 300, ssss, [(sec, t) for t in tapes])))
         if not q:
             shards.append((6, wide_worker, (2, 65537, ssss, [(s1, (P[12],)), (allones, (0,))])))
+            shards.append((8, wide_worker, (3, 65537, ssss, [(s1, (P[12], P[13])), (allones, (0, s1))])))
+            shards.append((5, wide_worker, (4, 65537, ssss, [(s1, fixed_tapes(4)[1])])))
+            for sec in (allones, s1):
+                for t in fixed_tapes(4):
+                    shards.append((8.0, wide_worker, (4, 300, ssss, [(sec, t)])))
+                for k in (2, 3):
+                    tapes = list(itertools.product([0, allones, s1], repeat=k - 1))
+                    shards.append((0.3 * len(tapes), wide_worker, (k, 1025, ssss, [(sec, t) for t in tapes])))
+                shards.append((11.0, wide_worker, (4, 1025, ssss, [(sec, t) for t in fixed_tapes(4)])))
+            # k = 5 over the 10 boundary indexes of n = 300: 30240 orders per case, cut by the first index
+            for cse in ((s1, fixed_tapes(5)[1]), (allones, fixed_tapes(5)[3])):
+                for first in WIDE[300]:
+                    shards.append((7.0, wide_worker, (5, 300, ssss, [cse], first)))
     # large thresholds (both modes): (k, n, indexes that must appear together in one k-subset)
     for k, n, must in ([(16, 257, (256, 257)), (32, 32, (16, 17))] +
                        ([] if q else [(64, 64, (4, 5)), (128, 128, (2, 3)), (17, 40, (16, 17)), (33, 40, (2, 3, 4, 5))])):
         for ssss in (False, True):
             shards.append((4.0, large_worker, (k, n, ssss, must)))
+    if not q:
+        for k, n, must in [(96, 96, (2, 3)), (127, 128, (2, 3)), (129, 130, (2, 3))]:
+            for ssss in (False, True):
+                shards.append((4.0, large_worker, (k, n, ssss, must)))
+        # every threshold 7..64, n = k + 1
+        c2 = lambda k: (k + 5) * 0.000035 * k * k + 0.02                           # noqa: E731
+        for ssss in (False, True):
+            grp = []
+            for k in LARGE2_K:
+                grp.append(k)
+                if sum(c2(j) for j in grp) >= 3.0 or k == LARGE2_K[-1]:
+                    shards.append((sum(c2(j) for j in grp), large2_worker, (tuple(grp), ssss)))
+                    grp = []
     # split
     nsplit = {}
-    for k, n in KN:
+    for k, n in (KN if q else KN_T):
         cases = len(grid_cases(SPLIT_GRID[tier][k], k))
         nsplit[(k, n)] = cases
         parts = max(1, cases // 1500)
@@ -936,28 +1261,54 @@ def run(ctx):
             for pi in range(parts):
                 shards.append((cases / parts * 0.0012, split_worker, (k, n, ssss, tier, pi, parts)))
     # duplicates
-    for m in range(2, NMAX + 1):
+    ND = NMAX if q else DUP_N_T
+    for m in range(2, ND + 1):
         for ssss in (False, True):
-            if m >= 5:
-                for first in range(1, NMAX + 1):
-                    shards.append((1.0, dup_worker, (m, ssss, first)))
+            if q:
+                if m >= 5:
+                    for first in range(1, NMAX + 1):
+                        shards.append((1.0, dup_worker, (m, ssss, first)))
+                else:
+                    shards.append((0.3, dup_worker, (m, ssss, None)))
             else:
-                shards.append((0.3, dup_worker, (m, ssss, None)))
+                # every list of length m over the indexes 1..7; cut by the first max(0, m - 5) indexes
+                for prefix in itertools.product(range(1, ND + 1), repeat=max(0, m - 5)):
+                    shards.append((ND ** min(m, 5) * 0.00008, dup2_worker, (m, ssss, prefix, ND, None)))
+    if not q:
+        for m in (2, 3, 4):
+            for ssss in (False, True):
+                shards.append((0.5, dup2_worker, (m, ssss, (), 300, tuple(WIDE[300]))))
     # secrecy witness
-    for k in range(2, NMAX + 1):
-        gen = tuple([P[11], P[12], P[13], P[11] ^ MASK, P[12] ^ MASK][:k - 1])
+    nbases = 0
+    for k in range(2, (NMAX if q else WIT_N_T) + 1):
+        gen = fixed_tapes(k)[1]
         bases = [(P[12], gen), (0, tuple([0] * (k - 1))), (MASK, tuple([MASK] * (k - 2) + [1]))]
         if not q:
-            bases += [(P[13], tuple([0] * (k - 2) + [P[11]])), (1, tuple(reversed(gen)))]
+            bases += [(P[13], tuple([0] * (k - 2) + [P[11]])), (1, tuple(reversed(gen))),
+                      (P[11], tuple([P[11]] * (k - 1))), (1 << 127, tuple([MASK, 0] * k)[:k - 1])]
+        nbases = len(bases)
         for ssss in (False, True):
             for b in bases:
-                shards.append((0.6, witness_worker, (k, ssss, [b])))
+                if q:
+                    shards.append((0.6, witness_worker, (k, ssss, [b])))
+                else:
+                    shards.append((math.comb(WIT_N_T, k - 1) * 41 * 0.004, witness_worker, (k, ssss, [b], WIT_N_T, "psi")))
     # field
     for i in range(0, 128, 8):
         shards.append((0.5, field_worker, ("basis", list(range(i, i + 8)))))
     for ai in range(len(P)):
         shards.append((1.2, field_worker, ("triples", ai)))
     shards.append((2.0, field_worker, ("misc",)))
+    if not q:
+        Q = psi()
+        ctx.require(len(set(Q)) == len(Q) == len(PSI_NAMES) == 40 and Q[:len(P)] == P, "alphabet Psi has colliding members")
+        for ai in range(len(Q)):
+            shards.append((3.0, field_worker, ("triples2", ai)))
+        for r in range(SPARSE_SHARDS):
+            rows = list(range(127 - r, 0, -SPARSE_SHARDS))
+            shards.append((sum(rows) * 29 * 0.00025, field_worker, ("sparse", rows)))
+        for pi in range(INV2_SHARDS):
+            shards.append((len(inverse_set2()) / INV2_SHARDS * 0.0012, field_worker, ("inverses2", pi, INV2_SHARDS)))
 
     shards.sort(key=lambda s: -s[0])
     ctx.pmap(_dispatch, [(fn.__name__, sh) for _, fn, sh in shards])
@@ -966,6 +1317,8 @@ def run(ctx):
     cl = a.distinct.get("classes", set())
     if not a.viol:
         _guards(ctx, a, cl, P, nsplit, ncomb)
+        if not q:
+            _guards_thorough(ctx, a, cl, nlayer, nbases)
 
     ctx.coverage_extra.update({
         "evaluations": a.n.get("evaluations", 0),
@@ -995,16 +1348,61 @@ def run(ctx):
         "field": {"basis_monomial_pairs": 128 * 128, "triples": len(P) ** 3, "inverses": a.n.get("field_inverse", 0),
                   "library_multiplications": a.n.get("field_mul", 0)},
     })
-    ctx.assume("n <= 6 for the complete subset/order enumeration (plus n = 300%s over boundary indexes for k = 2, 3); secrets and "
-               "coefficients range over the stated alphabets, not over all 2^128 values" % ("" if q else " and 65537"))
+    if q:
+        ctx.assume("n <= 6 for the complete subset/order enumeration (plus n = 300 over boundary indexes for k = 2, 3); secrets and "
+                   "coefficients range over the stated alphabets, not over all 2^128 values")
+    else:
+        kmax = NMAX_T
+        lay = sorted(LAYER_GRID)
+        ctx.coverage_extra["kn_pairs"] = len(KN_T)
+        ctx.coverage_extra["element_alphabet_Psi (field triples, candidate secrets of the witness)"] = PSI_NAMES
+        ctx.coverage_extra["split"]["cases_per_(k,n,mode)"] = {"k=%d" % k: nsplit[(k, kmax)] for k in range(2, kmax + 1)}
+        ctx.coverage_extra["split"]["grid"] = {"k=%d" % k: grid_text(SPLIT_GRID[tier][k], k) for k in range(2, kmax + 1)}
+        ctx.coverage_extra["split"]["(k,n)_pairs"] = "all 28 with 2 <= k <= n <= 8"
+        comb = ctx.coverage_extra["combine"]
+        del comb["wide_index_calls (n=300, 65537)"]
+        comb["wide_index_calls (n=300: k=2,3,4,5; n=1025: k=2,3,4; n=65537: k=2,3,4)"] = a.n.get("combine_wide_calls", 0)
+        comb["wide_index_sets"] = {"n=%d" % n: WIDE[n] for n in sorted(WIDE)}
+        comb["repeated_index_lists"] = ("every list of length 2..%d over the indexes 1..%d, every list of length 2..4 over the boundary "
+                                        "indexes of n=300, each with the repeated share identical and with a different value" % (DUP_N_T, DUP_N_T))
+        ctx.coverage_extra["layers (share counts n = 7, 8: every recombination that contains share n)"] = {
+            "cases_per_(k,n,mode)": {"n=%d" % n: {"k=%d" % k: nlayer[(k, n)] for k in range(2, n + 1)} for n in lay},
+            "grid": {"n=%d" % n: {"k=%d" % k: grid_text(LAYER_GRID[n][k], k) for k in range(2, n + 1)} for n in lay},
+            "ordered_k_subsets_containing_share_n_per_case": {"n=%d" % n: {"k=%d" % k: math.comb(n - 1, k - 1) * math.factorial(k)
+                                                                            for k in range(2, n + 1)} for n in lay},
+            "combine_calls_on_ordered_k_subsets": a.n.get("layer_k_calls", 0),
+            "superset_calls": a.n.get("layer_superset_calls", 0), "k-1_subset_calls": a.n.get("layer_kminus1_calls", 0),
+            "extras": "supersets and (k-1)-subsets containing share n: every case for k >= 4; k = 2, 3: secret in T4, tape in T4^(k-1)"}
+        ctx.coverage_extra["large_thresholds"] = {
+            "every_k": "%d..%d with n = k+1, both modes; generic values: all k+1 leave-one-out k-subsets in index order, first k "
+                       "shares reversed and rotated by k//2; secret = coefficients = 2^128-1: first k shares, last k shares reversed"
+                       % (LARGE2_K[0], LARGE2_K[-1]),
+            "single_(k,n)": [[16, 257], [32, 32], [64, 64], [128, 128], [17, 40], [33, 40], [96, 96], [127, 128], [129, 130]],
+            "combine_calls": a.n.get("combine_large_calls", 0)}
+        ctx.coverage_extra["secrecy"]["grid"] = ("k = 2..%d, both modes, %d base cases, every (k-1)-subset of %d shares, candidate secrets "
+                                                 "Psi(40) + {secret xor 1}" % (WIT_N_T, nbases, WIT_N_T))
+        ctx.coverage_extra["field"] = {
+            "basis_monomial_pairs": 128 * 128, "triples": "Phi^3 (%d) and Psi^3 (%d)" % (len(P) ** 3, len(PSI_NAMES) ** 3),
+            "two_term_elements_x^i+x^j": a.n.get("field_sparse_elements", 0),
+            "two_term_products": "each two-term element times every element of Phi in both orders, and squared",
+            "inverses": a.n.get("field_inverse", 0),
+            "inverse_set": "quick set (435) + every x^i+x^j, every ((2^len)-1)<<shift below 2^128, every odd byte << 0..120, every "
+                           "integer 1..4095 (%d distinct)" % len(inverse_set2()),
+            "library_multiplications": a.n.get("field_mul", 0)}
+        ctx.assume("n <= 8 for the complete subset/order enumeration: n <= 6 on the combine grid, n = 7 and n = 8 as layers (every "
+                   "ordered k-subset, superset and (k-1)-subset that contains share n) on their own grids; every threshold k = 7..64 with "
+                   "n = k+1 over the leave-one-out subsets only; n = 300, 1025, 65537 over boundary indexes for k = 2, 3, 4 (n = 300: also 5); secrets and "
+                   "coefficients range over the stated alphabets, not over all 2^128 values")
     ctx.assume("combine() is a stateless static method: a k-subset of the n < 6 first shares is the same call as for n = 6 (split(k, n) "
-               "is verified to be a prefix of split(k, 6) on the real library for every case) and is executed once")
+               "is verified to be a prefix of split(k, 6) on the real library for every case) and is executed once"
+               + ("" if q else "; likewise a subset of n = 7 (8) shares that does not contain share 7 (8) is a call of n = 6 (7), "
+                  "split(k, n-1) being verified to be a prefix of split(k, n) for every layer case"))
     ctx.assume("entropy seam: module attribute Crypto.Protocol.SecretSharing.rng; Crypto.Random.get_random_bytes and os.urandom are "
                "tripwired during every split()")
     ctx.assume("outside the domain of the statement and therefore logged only: k < 2, k > n, share index 0 or >= 2^128, empty share "
                "list, _Element ** 0, more than k shares in ssss mode, the value combine() returns for k-1 shares")
-    ctx.assume("repeated indexes: every index list of length 2..6 over the indexes 1..6 with at least one repetition, the repeated "
-               "share once identical and once with a different value, both modes")
+    ctx.assume("repeated indexes: every index list of length 2..%d over the indexes 1..%d with at least one repetition, the repeated "
+               "share once identical and once with a different value, both modes" % ((NMAX, NMAX) if q else (DUP_N_T, DUP_N_T)))
     ctx.assume("any exception counts as refusal of a repeated index (ValueError observed); the message tells whether the duplicate "
                "detection or the inversion of zero refused")
 
@@ -1013,8 +1411,9 @@ def _guards(ctx, a, cl, P, nsplit, ncomb):
     """vacuity guards: they protect a SILENT verdict (with violations on record enumerations are cut short)"""
     for part in ("split", "combine-split"):
         got = {(c[1], c[2], c[3]) for c in cl if c[0] == part}
-        ctx.require(got == {(k, n, s) for k, n in KN for s in (False, True)},
-                    "%s: not all 15 (k, n) pairs x 2 modes were executed" % part)
+        kn = KN_T if part == "split" and not ctx.quick else KN
+        ctx.require(got == {(k, n, s) for k, n in kn for s in (False, True)},
+                    "%s: not all %d (k, n) pairs x 2 modes were executed" % (part, len(kn)))
     ctx.require(a.n.get("split_calls", 0) >= 2 * sum(nsplit.values()), "fewer split() cases than the grid defines")
     ctx.require(a.n.get("tape_bytes", 0) > 0 and a.n.get("split_ok", 0) == a.n.get("split_calls", 0),
                 "split bookkeeping inconsistent")
@@ -1025,7 +1424,10 @@ def _guards(ctx, a, cl, P, nsplit, ncomb):
     ctx.require(len({(c[0], c[1], c[2]) for c in osub}) == 2 * sum(math.comb(NMAX, k) for k in range(2, NMAX + 1)),
                 "not every k-subset of the 6 shares was presented in both modes")
     ctx.require(all(c[3] == math.factorial(c[0]) for c in osub), "a k-subset was not recombined in all k! orders")
-    ndup = 2 * 2 * sum(NMAX ** m - math.perm(NMAX, m) for m in range(2, NMAX + 1))
+    ND = NMAX if ctx.quick else DUP_N_T
+    ndup = 2 * 2 * sum(ND ** m - math.perm(ND, m) for m in range(2, ND + 1))
+    if not ctx.quick:
+        ndup += 2 * 2 * sum(len(WIDE[300]) ** m - math.perm(len(WIDE[300]), m) for m in (2, 3, 4))
     ctx.require(a.n.get("dup_refused", 0) == a.n.get("dup_calls", 0) == ndup,
                 "repeated-index lists: %d enumerated, %d refused, %d expected" % (a.n.get("dup_calls", 0), a.n.get("dup_refused", 0), ndup))
     ctx.require(a.n.get("witness_calls", 0) > 1000 and not a.n.get("witness_reference_mismatch"),
@@ -1036,7 +1438,8 @@ def _guards(ctx, a, cl, P, nsplit, ncomb):
     ctx.require(not a.n.get("reference_refused"), "the reference refused share lists the real split() produced")
     ctx.require(len(a.distinct.get("share_values", ())) > 1000, "fewer than 1000 distinct share values: tapes not effective")
     ctx.require(sum(1 for c in cl if c[:2] == ("field", "basis-row")) == 128, "not all 128 basis rows multiplied")
-    ctx.require(a.n.get("field_triples", 0) == len(P) ** 3, "not all %d triples evaluated" % len(P) ** 3)
+    ntri = len(P) ** 3 + (0 if ctx.quick else len(PSI_NAMES) ** 3)
+    ctx.require(a.n.get("field_triples", 0) == ntri, "not all %d triples evaluated" % ntri)
     ctx.require(len(a.distinct.get("basis_products", ())) == 255 and len(a.distinct.get("triple_products", ())) > 300,
                 "field products collapse to few values")
     ctx.require(("field", "inverse", True, "ValueError") in cl, "inverse of zero was not refused with ValueError")
@@ -1045,9 +1448,52 @@ def _guards(ctx, a, cl, P, nsplit, ncomb):
     ctx.require(any(c[0] == "wide" for c in cl), "wide-index part did not run")
 
 
+def _guards_thorough(ctx, a, cl, nlayer, nbases):
+    """vacuity guards of the dimensions only the thorough tier has"""
+    lay = sorted(LAYER_GRID)
+    got = {(c[1], c[2], c[3]) for c in cl if c[0] == "layer-split"}
+    exp = {(k, m, s) for n in lay for k in range(2, n + 1) for m in (n - 1, n) if m >= k for s in (False, True)}
+    ctx.require(got == exp, "layers: not every (k, n), n = 7, 8 (and its predecessor n-1) x 2 modes was split")
+    exp_k = sum(2 * nlayer[(k, n)] * math.comb(n - 1, k - 1) * math.factorial(k) for (k, n) in nlayer)
+    ctx.require(a.n.get("layer_k_calls", 0) == a.n.get("layer_k_ok", 0) == exp_k,
+                "layers: %d ordered k-subsets recombined, %d gave the secret, the grid defines %d"
+                % (a.n.get("layer_k_calls", 0), a.n.get("layer_k_ok", 0), exp_k))
+    ctx.require(a.n.get("layer_cases", 0) == 2 * sum(nlayer.values()), "layers: number of cases differs from the grid")
+    ctx.require(len(a.distinct.get("layer_subsets", ())) == 2 * sum(2 ** (n - 1) - 1 for n in lay),
+                "layers: not every k-subset containing share n was presented in both modes")
+    ctx.require(all(any(c[0] == "layer-superset" and c[3] == n and not c[4] and c[6] for c in cl) for n in lay)
+                and a.n.get("layer_kminus1_calls", 0) > 1000, "layers: supersets / (k-1)-subsets did not run")
+    gl = {(c[1], c[3], c[4]) for c in cl if c[0] == "large2" and c[5]}
+    ctx.require(gl == {(k, s, v) for k in LARGE2_K for s in (False, True) for v in (0, 1)},
+                "every-threshold part: not every k = %d..%d x 2 modes x 2 value classes rebuilt the secret" % (LARGE2_K[0], LARGE2_K[-1]))
+    ctx.require(a.n.get("combine_large2_calls", 0) == 2 * sum(k + 5 for k in LARGE2_K), "every-threshold part: call count")
+    ctx.require({(c[1], c[2]) for c in cl if c[0] == "large" and c[4]} >=
+                {(16, 257), (32, 32), (64, 64), (128, 128), (17, 40), (33, 40), (96, 96), (127, 128), (129, 130)},
+                "large thresholds: not every stated (k, n) rebuilt the secret")
+    ctx.require({(c[1], c[2], c[3]) for c in cl if c[0] == "wide" and c[4] == "ok"} ==
+                {(k, n, s) for k in (2, 3, 4) for n in (300, 1025, 65537) for s in (False, True)} | {(5, 300, False), (5, 300, True)},
+                "wide indexes: not every (k, n), k = 2, 3, 4, n = 300, 1025, 65537 and (5, 300) ran in both modes")
+    ctx.require(a.n.get("combine_wide_calls", 0) >= 2 * 2 * math.perm(len(WIDE[300]), 5), "wide indexes: k = 5 did not run on all orders")
+    nwit = 2 * nbases * (len(PSI_NAMES) + 1) * sum(math.comb(WIT_N_T, k - 1) for k in range(2, WIT_N_T + 1))
+    ctx.require(a.n.get("witness_calls", 0) == nwit, "secrecy witness: %d splits, %d expected" % (a.n.get("witness_calls", 0), nwit))
+    ctx.require(all(c[4] for c in cl if c[0] == "witness") and
+                len({(c[1], c[2], c[3]) for c in cl if c[0] == "witness"}) == 2 * (2 ** WIT_N_T - 2),
+                "secrecy witness: not every (k-1)-subset of the %d shares, k = 2..%d, in both modes" % (WIT_N_T, WIT_N_T))
+    ctx.require(a.n.get("field_sparse_elements", 0) == 128 * 127 // 2 and
+                sum(1 for c in cl if c[:2] == ("field", "sparse-row")) == 127 and
+                len(a.distinct.get("sparse_squares", ())) == 128 * 127 // 2,
+                "field: not all 8128 two-term elements were multiplied (squaring is injective: 8128 distinct squares expected)")
+    ctx.require(a.n.get("field_inverse2", 0) == len(inverse_set2()) and
+                len(a.distinct.get("inverses", ())) >= len(inverse_set2()),
+                "field: not every element of the large inverse set was inverted to a distinct value")
+
+
 def _dispatch(item):
     name, shard = item
-    return globals()[name](shard)
+    t0 = time.process_time()
+    acc = globals()[name](shard)
+    acc.count("_cpu/" + name, time.process_time() - t0)        # per-part CPU seconds (hidden counter, for calibration only)
+    return acc
 
 
 # ---------------------------------------------------------------------------
@@ -1057,7 +1503,8 @@ def replay(case, acc):
         check_split(case["k"], case["n"], case["ssss"], G.from_bytes(case["secret"]),
                     tuple(G.from_bytes(c) for c in case["tape"]), acc)
     elif p == "combine-all":
-        combine_case(case["k"], case["ssss"], G.from_bytes(case["secret"]), tuple(G.from_bytes(c) for c in case["tape"]), acc)
+        combine_case(case["k"], case["ssss"], G.from_bytes(case["secret"]), tuple(G.from_bytes(c) for c in case["tape"]), acc,
+                     n_max=case.get("n_max", NMAX))
     elif p == "combine":
         k, ssss = case["k"], case["ssss"]
         secret, tape = G.from_bytes(case["secret"]), tuple(G.from_bytes(c) for c in case["tape"])
@@ -1072,10 +1519,10 @@ def replay(case, acc):
         else:
             judge_rebuild(case["kind"], k, case["n"], ssss, secret, tape, shares, tuple(case["order"]), acc)
     elif p == "dup":
-        check_dup(case["ssss"], tuple(case["idxs"]), case["variant"], acc)
+        check_dup(case["ssss"], tuple(case["idxs"]), case["variant"], acc, n=case.get("n", NMAX))
     elif p == "witness":
         witness_case(case["k"], case["ssss"], G.from_bytes(case["secret"]), tuple(G.from_bytes(c) for c in case["tape"]),
-                     tuple(case["J"]), G.from_bytes(case["alt"]), acc)
+                     tuple(case["J"]), G.from_bytes(case["alt"]), acc, n_max=case.get("n_max", NMAX))
     elif p == "field":
         law = case["law"]
         if law == "mul":
